@@ -1,6 +1,7 @@
 """C05 -- results do not depend on worker count or completion order (multiprocessing)."""
 from __future__ import annotations
 
+import copy
 import itertools
 import sys
 import types
@@ -27,9 +28,16 @@ from vf.symx import SB, SV, Engine, concretise, sarr, sym, symarr
 
 
 # ---- model of multiprocessing.Pool -------------------------------------------------------------------------------
+def pickled(obj):
+    """the Pool contract moves functions, arguments and results between processes by pickling; copy.deepcopy drives the same
+    __reduce_ex__ / __getstate__ / __setstate__ protocol and also works for symbolic payloads (z3 terms are not picklable)"""
+    return copy.deepcopy(obj)
+
+
 class FakePool:
-    """Pool.imap_unordered contract: every task is executed once, results are handed over once each, in ANY order
-    (the order is an engine choice); Pool.map returns the results in submission order."""
+    """Pool.imap_unordered contract: every task is executed once (on a pickled copy of function and argument), results are
+    handed over once each (as a pickled copy), in ANY order (the order is an engine choice); Pool.map returns the results
+    in submission order."""
 
     current_order = None
     created = []
@@ -48,10 +56,15 @@ class FakePool:
         tasks = list(iterable)
         order = FakePool.current_order(len(tasks)) if FakePool.current_order else list(range(len(tasks)))
         for i in order:
-            yield func(tasks[i])
+            f, t = pickled((func, tasks[i]))
+            yield pickled(f(t))
 
     def map(self, func, iterable, chunksize=None):
-        return [func(t) for t in iterable]
+        out = []
+        for t in iterable:
+            f, t = pickled((func, t))
+            out.append(pickled(f(t)))
+        return out
 
 
 class FakeMP:
@@ -123,28 +136,36 @@ class Hist(_Sched):
     functions = (HistData.from_catalog, par.iter_unordered, par._multiprocessing_iter_unordered, par.ParallelJob.__call__, par.get_size)
     modules = CORR_MODULES + (par,)
 
-    def __init__(self, P, wrong=None):
-        self.P, self.wrong = P, wrong
-        self.name = "histogram.P%d" % P + (".twin-" + wrong if wrong else "")
-        self.bounds = "%d patches (= tasks) x 1 object, 2 bins; redshifts/weights symbolic; every completion order and worker count 1..%d" % (P, P + 1)
+    def __init__(self, P, wrong=None, edges=False):
+        self.P, self.wrong, self.edges = P, wrong, edges
+        self.name = "histogram.P%d" % P + (".edges" if edges else "") + (".twin-" + wrong if wrong else "")
+        self.bounds = ("%d patches (= tasks) x 1 object, 2 bins; redshifts/weights symbolic (%s); every completion order and worker count 1..%d; "
+                       "function, arguments and results cross the process boundary as pickled copies") % (
+            P, "anywhere in [zmin, zmax] incl. exactly on the edges, closed side chosen by the engine" if edges else "inside the first bin", P + 1)
         self.must_fail = wrong is not None
 
     def make_inputs(self, eng):
         d = {"z": symarr("z", (self.P, 1)), "w": symarr("w", (self.P, 1))}
         for v in d["z"].ravel():
-            eng.assume((v > 0.25) & (v < 0.5))  # all objects in the first bin: the schedule is the only variable
+            if self.edges:
+                eng.assume((v >= 0.25) & (v <= 0.75))
+                for w in d["w"].ravel():  # the replay builds real catalogs: their metadata need a positive weight sum
+                    eng.assume((w >= 0.5) & (w <= 2.0))
+            else:
+                eng.assume((v > 0.25) & (v < 0.5))  # all objects in the first bin: the schedule is the only variable
+        d["closed"] = eng.choose(2, "closed") if self.edges else 0
         d.update(self.sched_inputs(eng, self.P))
         return d
 
     def concrete_inputs(self, m, inp):
         out = concretise(m, {"z": inp["z"], "w": inp["w"]})
-        out["perm"], out["workers"] = inp["perm"], inp["workers"]
+        out["perm"], out["workers"], out["closed"] = inp["perm"], inp["workers"], inp["closed"]
         return out
 
     def body(self, inp):
         if Engine.cur is None:
             return self.concrete_body(inp)
-        binning = conc_binning(2)
+        binning = conc_binning(2, closed=("right", "left")[inp.get("closed", 0)])
         cat = {i: FakePatch(inp["z"][i], inp["w"][i], i) for i in range(self.P)}
         cfg = BinningConfig(binning)
         self.setup_parallel(inp)
@@ -185,19 +206,33 @@ class Hist(_Sched):
         saved_np = par._num_processes
         try:
             P = self.P
-            z = np.array([0.3 + 0.01 * i for i in range(P) for _ in range(i + 1)])
+            closed = ("right", "left")[inp.get("closed", 0)]
+            cfg = Configuration.create(rmin=1, rmax=2, edges=[0.25, 0.5, 0.75], closed=closed)
             pid = np.array([i for i in range(P) for _ in range(i + 1)])
-            df = pd.DataFrame({"ra": np.linspace(1, 2, len(z)), "dec": np.linspace(1, 2, len(z)), "z": z, "w": 1.0 + 0.37 * np.arange(len(z)), "p": pid})
-            cat = RealCatalog.from_dataframe(tmp + "/c", df, ra_name="ra", dec_name="dec", redshift_name="z", weight_name="w", patch_name="p", max_workers=1)
-            cfg = Configuration.create(rmin=1, rmax=2, zmin=0.25, zmax=0.75, num_bins=2)
-            par._num_processes = lambda: 1
-            ref = HistData.from_catalog(cat, cfg)
-            par._num_processes = lambda: max(2, int(inp["workers"]))
-            multiprocessing.pool.Pool.imap_unordered = forced
-            got = HistData.from_catalog(cat, cfg)
-            return [Check("data_bit_identical", cond=bool(np.array_equal(got.data, ref.data))),
-                    Check("samples_bit_identical_and_in_patch_order", cond=bool(np.array_equal(got.samples, ref.samples))),
-                    Check("values", got.samples, ref.samples)]
+            k = np.arange(len(pid))
+            if self.edges:  # the solver's redshifts and weights (one object per patch)
+                banks = [(np.asarray(inp["z"], dtype=float).ravel(), np.asarray(inp["w"], dtype=float).ravel(), np.arange(P))]
+            else:  # the schedule is the counterexample; weights are witnesses of the non-associativity of float addition
+                z = np.array([0.3 + 0.01 * i for i in range(P) for _ in range(i + 1)])
+                banks = [(z, w, pid) for w in (1.0 + 0.37 * k, 0.1 * (1.0 + k), 1.0 / (3.0 + k), 2.0 ** (20.0 * (k % 3)) + 1.0 / 3.0)]
+            worst = None
+            for n, (z, w, pp) in enumerate(banks):
+                df = pd.DataFrame({"ra": np.linspace(1, 2, len(z)), "dec": np.linspace(1, 2, len(z)), "z": z, "w": w, "p": pp})
+                cat = RealCatalog.from_dataframe(tmp + "/c%d" % n, df, ra_name="ra", dec_name="dec", redshift_name="z", weight_name="w", patch_name="p", max_workers=1)
+                par._num_processes = lambda: 1
+                multiprocessing.pool.Pool.imap_unordered = orig
+                ref = HistData.from_catalog(cat, cfg)
+                par._num_processes = lambda: max(2, int(inp["workers"]))
+                multiprocessing.pool.Pool.imap_unordered = forced
+                got = HistData.from_catalog(cat, cfg)
+                res = [Check("data_bit_identical", cond=bool(np.array_equal(got.data, ref.data))),
+                       Check("samples_bit_identical_and_in_patch_order", cond=bool(np.array_equal(got.samples, ref.samples))),
+                       Check("values", got.samples, ref.samples)]
+                if worst is None or not (np.array_equal(got.data, ref.data) and np.array_equal(got.samples, ref.samples)):
+                    worst = res
+                    if n:
+                        break
+            return worst
         finally:
             multiprocessing.pool.Pool.imap_unordered = orig
             par._num_processes = saved_np
@@ -436,7 +471,7 @@ class GetSize(Harness):
 
 
 def harnesses(tier):
-    hs = [Hist(3), CountPairs(2, True), CountPairs(2, False), LoadPatchesOrder(3), GetSize(), RealPoolHistory()]
+    hs = [Hist(3), Hist(2, edges=True), CountPairs(2, True), CountPairs(2, False), LoadPatchesOrder(3), GetSize(), RealPoolHistory()]
     if tier == "thorough":
         hs += [Hist(4), Hist(5), LoadPatchesOrder(4), LoadPatchesOrder(5), CountPairs(3, True)]
     hs += [Hist(2, wrong="reach")]
